@@ -336,10 +336,12 @@ class Run:
                  env.state_simulator.truncation_joker, env.state_simulator.stepper.no_op_counter,
                  env.state_simulator.stepper.action_counter)
         self.out.append("X " + (err_name(err) if err is not None else "NoError"))
-        if not isinstance(err, ActionOutOfActionSpace):
+        if err is None:
             self.c14_findings.append({"sig": "invalid-action-not-rejected",
-                                      "detail": f"action {a!r}: {err_name(err) if err else 'accepted'}", "step": len(self.records)})
-            return err is None
+                                      "detail": f"action {a!r}: accepted", "step": len(self.records)})
+            return True
+        # any exception is a rejection (with no offers left `interpret` raises InvalidValue before it
+        # looks at the action); what matters is that the episode is untouched
         if before[0] != after[0] or before[1] is not after[1] or before[2:] != after[2:]:
             self.c14_findings.append({"sig": "invalid-action-changed-episode", "detail": f"action {a!r}",
                                       "step": len(self.records)})
